@@ -246,6 +246,7 @@ PROPS = {
         "engines": [
             {"name": "c17-shutdown", "bin": "vmon_hist", "package": "hist"},
             {"name": "c17-h2", "bin": "vmon_hist", "package": "hist"},
+            {"name": "c17-drop", "bin": "vmon_hist", "package": "hist"},
             {"name": "c17-tls", "bin": "vmon_tls", "package": "tlsmon"},
             asan("C17", "c17-shutdown", "hist", "vmon_hist"),
         ],
